@@ -8,7 +8,8 @@ and then runs method chains on q / q_ord and compares each result with the corre
 slices and limit/page for ALL bounds 0..|R|+1, nested limits, first/get/exists/count/sum/min/max/avg/group_concat
 (with distinct= / sep=), distinct/without_distinct, chained filter/where (lambda, text, kwargs -- predicate evaluated by
 the E1 reference interpreter on the mirror), re-ordering (stable sort of R), random(n), iteration over a limited
-subquery, and delete(bulk=True/False) judged from the database inside the same transaction (then rolled back).
+subquery, access scripts on the result OBJECT (lazy limit/page results and eager slice/fetch results indexed, negatively
+indexed, sliced, re-sliced, len()'d, partially and fully iterated in every order -- compared with a plain list), and delete(bulk=True/False) judged from the database inside the same transaction (then rolled back).
 "Ordering only permutes": Counter(R) == Counter(U).
 """
 META = {
@@ -379,6 +380,8 @@ def check_base(mon, base, form, rng, sz, schema, gen):
                 mon.book('random', p, 'known', 'random() orders the query, which drops the automatic DISTINCT', L, got, 'order_drops_distinct')
             else: mon.book('random', p, 'disagree', 'random(%d) is not a sub-multiset of the result of the right size' % k, L, got)
 
+    # --- the result OBJECT (QueryResult) indexed / sliced / iterated in every load state -------------------------------
+    check_result_access(mon, base, form, chain0, R, rng, nt)
     # --- chained filter / where -----------------------------------------------------------------------------------------
     if base.kind in ('entity', 'scalar', 'tuple'):
         for _ in range(3): check_filter(mon, base, form, chain0, R, raw_R, rng, gen, schema, nt)
@@ -388,6 +391,97 @@ def check_base(mon, base, form, rng, sz, schema, gen):
     if base.kind == 'entity': check_iter_limited(mon, base, form, chain0, R, raw_R, rng, gen, schema, nt, sz)
     # --- delete -----------------------------------------------------------------------------------------------------------
     if base.kind == 'entity' and form != 'str' or base.kind == 'entity': check_delete(mon, base, form, chain0, U, rng, nt)
+
+
+def list_model(L, script):
+    """What the same access script observes on a plain python list."""
+    out = []
+    for a in script:
+        k = a[0]
+        try:
+            if k == 'idx': v = L[a[1]]
+            elif k == 'slice': v = L[a[1]:a[2]]
+            elif k == 'slice2': v = L[a[1]:a[2]][a[3]:a[4]]
+            elif k == 'len': v = len(L)
+            elif k in ('list', 'to_list'): v = list(L)
+            elif k == 'reversed': v = list(reversed(L))
+            elif k == 'next':
+                it = iter(L); v = [next(it) for _ in range(a[1])]
+            elif k == 'contains': v = (L[a[1]] in L) if len(L) > a[1] else None
+            else: raise ValueError(a)
+        except (IndexError, StopIteration) as e: v = ('$exc', type(e).__name__)
+        out.append(v)
+    return out
+
+
+def access_scripts(w, rng):
+    """Access scripts for a result of length w: the FIRST access varies over indexing, negative indexing, slicing,
+    len(), full and partial iteration; later accesses see the result in the state the earlier ones left it in."""
+    ri = lambda: rng.randint(-w - 1, w + 1)
+    rb = lambda: rng.choice([None, ri(), ri()])
+    i0 = rng.randint(0, max(w - 1, 0))
+    return [
+        [['idx', 0], ['list'], ['len']],
+        [['idx', -1], ['len'], ['idx', i0], ['list']],
+        [['idx', i0], ['slice', rb(), rb()], ['list']],
+        [['slice', rb(), rb()], ['idx', ri()], ['len']],
+        [['slice', None, None], ['idx', w], ['idx', -w - 1]],
+        [['slice2', rb(), rb(), rb(), rb()], ['idx', ri()], ['list']],
+        [['len'], ['idx', ri()], ['slice', rb(), rb()], ['idx', -1]],
+        [['next', min(1, w)], ['idx', i0], ['slice', rb(), rb()], ['list'], ['len']],
+        [['next', w + 1], ['idx', 0], ['len']],
+        [['list'], ['idx', ri()], ['slice2', rb(), rb(), rb(), rb()], ['reversed']],
+        [['reversed'], ['idx', i0], ['to_list']],
+        [['contains', i0], ['idx', -1], ['slice', rb(), rb()]],
+        [['to_list'], ['slice', rb(), rb()], ['idx', ri()]],
+    ]
+
+
+def check_result_access(mon, base, form, chain0, R, rng, nt):
+    """q.limit(n, off) / q.page(p, s) (lazy results), q[a:b] / q.fetch(n, off) (eager results) and q[:]: the result object
+    must behave like the python list R[window] under every access script, whatever access comes first."""
+    qdiff, ctx = mon.qdiff, mon.ctx
+    n = len(R)
+    prods = [(['slice', None, None], R)]
+    cand = [(l, o) for l in range(0, n + 2) for o in range(0, n + 2)]
+    rng.shuffle(cand)
+    for l, o in cand[:4] + [(max(n - 1, 1), 1), (2, max(n - 2, 0))]:
+        prods.append((['limit', l, o], R[o:o + l]))
+    o = rng.randint(1, n + 1) if n else 1
+    prods.append((['limit', None, o], R[o:]))
+    for _ in range(3):
+        size = rng.randint(1, max(n, 1)); page = rng.randint(1, n // size + 2)
+        prods.append((['page', page, size], R[(page - 1) * size: page * size]))
+    a, b = sorted([rng.randint(0, n + 1), rng.randint(0, n + 1)])
+    prods.append((['slice', a, b], R[a:b]))
+    prods.append((['slice', a, None], R[a:]))
+    l, o = rng.randint(0, n + 1), rng.randint(0, n + 1)
+    prods.append((['fetch', l, o], R[o:o + l]))
+    for step, L in prods:
+        scripts = access_scripts(len(L), rng)
+        scripts = rng.sample(scripts, 7 if step[0] in ('limit', 'page') else 5)
+        for script in scripts:
+            p, res = mon.run(base, form, chain0 + [step, ['access', script]])
+            if res.kind == 'raised':
+                ctx.count('method.result_access.pony_raised'); ctx.count('raised.' + res.exc); ctx.count('outcome.pony_raised'); continue
+            got = res.value[1] if isinstance(res.value, tuple) and res.value and res.value[0] == '$access' else None
+            exp = list_model(L, script)
+            ok = got is not None and len(got) == len(exp) and all(obs_match(qdiff, e, g) for e, g in zip(exp, got))
+            first = script[0][0]
+            ctx.count('result_access.first_%s.%s' % (first, 'agree' if ok else 'disagree'))
+            mon.book('result_access', p, 'agree' if ok else 'disagree',
+                     'result of %s accessed by %s' % (step, script), qdiff.enc(exp), qdiff.enc([qdiff.canon(g) if not isinstance(g, list) else [qdiff.canon(x) for x in g] for g in (got or [])]),
+                     nontrivial=nt and len(L) > 0)
+
+
+def obs_match(qdiff, exp, got):
+    """exp: list-model observation over canonical rows; got: raw observation from the result object."""
+    if isinstance(exp, tuple) and exp and exp[0] == '$exc': return isinstance(got, tuple) and tuple(got) == tuple(exp)
+    if isinstance(exp, list):
+        return isinstance(got, list) and len(got) == len(exp) and all(qdiff.value_match(e, qdiff.canon(g)) for e, g in zip(exp, got))
+    if isinstance(exp, bool) or exp is None: return got is exp or got == exp
+    if isinstance(got, list): return False
+    return qdiff.value_match(exp, qdiff.canon(got))
 
 
 def check_aggregates(mon, base, form, pre, L, B, nt):
@@ -673,6 +767,9 @@ def run(ctx):
     ctx.floor('method.slice.agree', 1000)
     ctx.floor('method.limit.agree', 1000)
     ctx.floor('method.nested_limit.agree', 300)
+    ctx.floor('method.result_access.agree', 1500)
+    for first in ('idx', 'slice', 'slice2', 'len', 'next', 'list', 'reversed'):
+        ctx.floor('result_access.first_%s.agree' % first, 50)
 
 
 def replay(ctx, witness):
